@@ -1,8 +1,14 @@
 """Contracts of the variable-elimination tactics and their dispatcher (C04), domain S.
 
 Term-level statement (implies the list-level one of C04):
-   refine:  for all b with [[context]](b):  e(term,b) <= e(result,b)      (result holds  => term holds)
-   relax :  for all b with [[context]](b):  e(term,b) >= e(result,b)      (term holds    => result holds)
+   refine:  for all b with [[context]](b):  result holds at b  =>  term holds at b
+   relax :  for all b with [[context]](b):  term holds at b    =>  result holds at b
+Exactly, over the rationals the float coefficients denote: the property's numerical reading (violations only above
+1e-4*(1+|constant|) inside the box) is weaker, but it does not compose - a term transformed with the help of another term
+that is only known up to the tolerance is not itself sound up to the tolerance - so the term-level contracts state the exact
+implication, which the elimination code (exact on exact arithmetic, A1) satisfies; the monitors apply the tolerances.
+(the implication itself, as the property states it - not the stronger pointwise comparison of the two left-hand sides,
+which an equivalent rescaled result would break).
 """
 import z3
 
@@ -19,7 +25,14 @@ V3 = ["x", "y", "z"]
 
 
 def bound_ok(s, term, r, refine, sub=None):
-    return (s.e(term, sub) <= s.e(r, sub)) if refine else (s.e(term, sub) >= s.e(r, sub))
+    return z3.Implies(s.holds(r, sub), s.holds(term, sub)) if refine else z3.Implies(s.holds(term, sub), s.holds(r, sub))
+
+
+def pointwise_ok(s, term, r, sub=None):
+    """the invariant tactic 4 needs of its own recursive calls: their result is substituted as an *expression*, so it has to
+    bound the term's left-hand side pointwise (e(term,b) <= e(result,b)); this implies bound_ok(refine) and is not required
+    of any other tactic."""
+    return s.e(term, sub) <= s.e(r, sub)
 
 
 def _require_conflict(s, term, elim):
@@ -138,7 +151,7 @@ def _tactic4(nctx, names, elims):
                 return (None, 1)
             rr = s.term("ih%d" % len(rec_calls), names)
             rec["result"] = rr
-            h.assume(z3.Implies(s.sat(c2), bound_ok(s, t2, rr, True)), "IH:tactic4.bound")
+            h.assume(z3.Implies(s.sat(c2), pointwise_ok(s, t2, rr)), "IH:tactic4.pointwise_bound")
             return (rr, 1)
 
         h.I.stubs[PTL + "_tactic_4"] = recursive_contract
@@ -157,7 +170,8 @@ def _tactic4(nctx, names, elims):
                 r = res[0]
                 conflict = [n for n in elim if n in s.coefs(term)]
                 a = s.coef(term, conflict[0]) if conflict else z3.RealVal(0)
-                goal = z3.Implies(s.sat(ctx), bound_ok(s, term, r, True))
+                goal = z3.Implies(s.sat(ctx), pointwise_ok(s, term, r))
+                h.ensure("C04.tactic4.pointwise_invariant_implies_refinement", z3.Implies(goal, z3.Implies(s.sat(ctx), bound_ok(s, term, r, True))))
                 if rec_calls and any("result" in rc for rc in rec_calls):
                     h.cover("recursive")
                     # the context of the inner call is a sub-list of the outer context
@@ -635,3 +649,38 @@ for _n, _names, _elims, _sh in ((1, V2, [["y"], ["x", "y"], ["w"]], 1), (2, V3, 
         shards=_sh,
         weight=2 * _n,
     )(_solve_for(_n, _names, _elims))
+
+
+# ------------------------------------------------------------------------------------------------
+# tactic 5 (context rows chosen among the LP-active ones).  The bound obligation is REFUTED on this tree: a known finding.
+# ------------------------------------------------------------------------------------------------
+def _tactic5(nctx, names, elims):
+    inner = _tactic1(nctx, names, elims, "_tactic_5")
+
+    def c(h):
+        spaces = {}
+
+        def space_for(c_, A_):
+            m = len(c_.items) if isinstance(c_, PList) else (c_.shape[-1] if isinstance(c_, NArr) else None)
+            return spaces.setdefault(m, ExplicitSpace(h.ctx, m))
+
+        LP(h, space_for).install()
+        inner(h)
+
+    return c
+
+
+for _nctx, _names, _elims, _tier, _sh in ((1, V2, [["y"]], "quick", 2), (2, V2, [["y"], ["x", "y"]], "quick", 16)):
+    contract(
+        "PolyhedralTermList._tactic_5[%d context terms over %s]" % (_nctx, ",".join(_names)),
+        ["C04", "C14", "C13"],
+        [PTL + "_tactic_5", PTL + "_context_reduction", PTL + "_get_tlp_context"],
+        "S",
+        bound="term and %d context terms over {%s} (every support); eliminated variables %s" % (_nctx, ",".join(_names), _elims),
+        assumes=["A4", "A5", "A6"],
+        covers=["declined", "transformed"],
+        chain=["C01", "C02"],
+        tier=_tier,
+        shards=_sh,
+        weight=6,
+    )(_tactic5(_nctx, _names, _elims))
